@@ -60,7 +60,7 @@ func TestC13(t *testing.T) {
 	var gm gaugeMax
 	http2.VerifSetGaugeHook(gm.observe)
 	defer http2.VerifSetGaugeHook(nil)
-	attacks := []string{"rapid-reset", "half-open", "priority-idle", "continuation-small-fields", "continuation-empty", "continuation-endless-literal", "body-over-limit-undeclared", "body-over-limit-declared", "content-length-lie", "ping-flood", "settings-flood", "ping-flood-no-read", "mixed", "self-reset-slots", "body-limit-boundary", "continuation-endless-literal-refused", "request-timeout-slots", "content-length-zero", "trailers-over-header-limit"}
+	attacks := []string{"rapid-reset", "half-open", "priority-idle", "continuation-small-fields", "continuation-empty", "continuation-endless-literal", "body-over-limit-undeclared", "body-over-limit-declared", "content-length-lie", "ping-flood", "settings-flood", "ping-flood-no-read", "mixed", "self-reset-slots", "body-limit-boundary", "continuation-endless-literal-refused", "request-timeout-slots", "content-length-zero", "trailers-over-header-limit", "pseudo-header-over-limit", "blocked-streamed-responses"}
 	n := r.Pick(160, 3000)
 	for i := 0; i < n; i++ {
 		id := fmt.Sprintf("a%d", i)
@@ -281,6 +281,39 @@ func c13Attack(r *vf.Run, t *testing.T, id string, rng *rand.Rand, gm *gaugeMax,
 				if i%10 == 0 {
 					rt.Wait()
 				}
+			}
+		case "pseudo-header-over-limit":
+			// the weight of the header list sits in a pseudo-header field: a :path longer than the limit, or a :path and a
+			// regular field that only together exceed it
+			rt.Open(gate)
+			for s := 0; s < min(m, 4); s++ {
+				tag := fmt.Sprintf("%s.%d", id, next)
+				path := "/" + tag + "/" + randToken(lr, hdrLimit+500, "abcdefghijklmnopqrstuvwxyz0123456789")
+				fs := []F{{Name: ":method", Value: "GET"}, {Name: ":scheme", Value: "https"}, {Name: ":path", Value: path}, {Name: ":authority", Value: "u.example"}, {Name: "x-vtag", Value: tag}}
+				if lr.Intn(2) == 0 {
+					fs[2].Value = path[:hdrLimit*6/10]
+					fs = append(fs, F{Name: "x-filler", Value: randToken(lr, hdrLimit*6/10, "abcdefghijklmnopqrstuvwxyz0123456789")})
+				}
+				if !send(rt.Concat(rt.HeaderFrames(next, e.P.EncodeBlock(fs, nil), nil, -1, nil, true))) {
+					break
+				}
+				rt.Wait()
+				next += 2
+			}
+		case "blocked-streamed-responses":
+			// the peer's stream windows are shut (INITIAL_WINDOW_SIZE 0) and the handlers answer at once with streamed bodies:
+			// every response stays blocked, its stream open. Requests keep coming, one at a time, each after the previous
+			// handler has returned: the streams that cannot finish still hold their slots.
+			send(rt.SettingsFrame(wire.Setting{ID: 4, Val: 0}))
+			rt.Wait()
+			e.H.SetDefault(&rt.RespPlan{Status: 200, Body: make([]byte, 5000), Stream: 1 + lr.Intn(2)})
+			rt.Open(gate)
+			for i := 0; i < min(frames/4, 10*m+20); i++ {
+				if !send(hdr(next, true)) {
+					break
+				}
+				next += 2
+				rt.Wait()
 			}
 		case "trailers-over-header-limit":
 			// the header block and the trailer block are each within MaxHeaderListSize, together they are not; both end up in
